@@ -35,11 +35,11 @@ def build(case):
     fn = graph.active_edges_single_cycle if case["kind"] == "cycle" else graph.active_edges_single_path
     kw = {}
     if case["ugp"] != "default":
-        kw["use_graph_primitive"] = case["ugp"]
+        kw["use_graph_primitive"] = int(case["ugp"]) if case.get("intflags") else case["ugp"]  # 1 / 0 instead of True / False
     if "shape" in case:
         h, w = case["shape"]
         fr = BoolGridFrame(s, h, w)
-        passed = fn(s, fr, **kw)
+        passed = fr.single_loop() if case.get("entry") == "single_loop" else fn(s, fr, **kw)
         evars = [fr.horizontal[y, x] if a == "h" else fr.vertical[y, x] for a, y, x, _ in frame_edges(h, w)]
         return s, evars, passed
     g = gcheck.make_graph(case["n"], case["edges"], case.get("grown"))
@@ -60,7 +60,7 @@ def run_case(part, case, prange=None):
         n, edges = case["n"], case["edges"]
     m = len(edges)
     prim = case["ugp"] is True or (case["ugp"] == "default" and case["cfg"])
-    key = "%s[%s,%s]" % (case["kind"], "frame" if "shape" in case else "graph", "native" if prim else "aux")
+    key = "%s[%s,%s]" % (case["kind"], ("frame.single_loop" if case.get("entry") else "frame") if "shape" in case else "graph", "native" if prim else "aux")
     with gcheck.GraphConfig(use_graph_primitive=bool(case["cfg"])):
         if case["kind"] == "path" and not prim:
             part.count("evaluations")
@@ -165,6 +165,28 @@ def scale_cases(tier):
         for kind in ("cycle", "path"):
             for ugp in ((False, True) if kind == "cycle" else (True,)):
                 out.append({"kind": kind, "shape": [h, w], "ugp": ugp, "cfg": False, "patterns": pats})
+        out.append({"kind": "cycle", "shape": [h, w], "ugp": "default", "cfg": False, "patterns": pats, "entry": "single_loop"})
+    # long winding loops of mid-sized frames: the longest simple cycles and the longest self-crossing closed strands (which
+    # a simple-cycle constraint must refuse) from a complete scan of the cycle space (tools/gen_weaves.py stores the inputs only)
+    import json
+    import os
+
+    weaves = json.load(open(os.path.join(harness.VERIF, "mc", "data", "weaves.json")))
+    for name in (["3x3", "3x4", "4x3", "4x4", "4x5", "5x4"] if tier == "quick" else sorted(weaves)):
+        h, w = (int(t) for t in name.split("x"))
+        pats = []
+        for entry in weaves[name]:
+            pat = [bool(b) for b in entry["pattern"]]
+            if entry["crossings"] == 0 or len(pats) < 2:
+                pats.append(pat)
+            if entry["crossings"] == 0:
+                opened = list(pat)
+                opened[pat.index(True)] = False
+                pats.append(opened)  # a Hamiltonian-like path
+        for kind in ("cycle", "path"):
+            for ugp in ((False, True) if kind == "cycle" else (True,)):
+                out.append({"kind": kind, "shape": [h, w], "ugp": ugp, "cfg": False, "patterns": pats})
+        out.append({"kind": "cycle", "shape": [h, w], "ugp": "default", "cfg": False, "patterns": pats, "entry": "single_loop"})
     # large family: more than 4096 segments / 2048 lattice points (line graph through the native route)
     for k in ((45,) if tier == "quick" else (45, 64)):
         orr = lambda a, b: [p_ or q for p_, q in zip(a, b)]  # noqa: E731
@@ -204,6 +226,21 @@ def cases_for(tier):
             for es in itertools.combinations(pairs, k):
                 for kind in ("cycle", "path"):
                     out.append({"kind": kind, "n": 5, "edges": list(es), "ugp": kind == "path", "cfg": False})
+    for n in (2, 3):
+        for edges in graphref.multigraphs(n, 3, 2):
+            for kind in ("cycle", "path"):
+                for ugp in (False, True):
+                    out.append({"kind": kind, "n": n, "edges": list(edges), "ugp": ugp, "cfg": False, "array": True, "intflags": True})
+    # structured mid-sized graphs, all 2^m edge patterns (quick: m <= 8)
+    for name, n, es in graphref.zoo():
+        if len(es) > (8 if tier == "quick" else 12):
+            continue
+        relab = name.endswith("~relabelled")
+        for kind in ("cycle", "path"):
+            for ugp in (False, True):
+                if tier == "quick" and ugp != relab:
+                    continue
+                out.append({"kind": kind, "n": n, "edges": es, "ugp": ugp, "cfg": False, "name": name})
     frames = [(0, 0), (1, 0), (0, 1), (1, 1), (1, 2), (2, 1), (2, 2)] if tier == "quick" else [(0, 0), (0, 2), (2, 0), (1, 1), (1, 2), (2, 1), (2, 2), (1, 3), (3, 1), (1, 4), (4, 1), (2, 3), (3, 2)]
     for h, w in frames:
         for kind in ("cycle", "path"):
@@ -216,6 +253,9 @@ def cases_for(tier):
                 if (h, w) == (3, 2) and kind == "cycle":
                     continue
                 out.append({"kind": kind, "shape": [h, w], "ugp": ugp, "cfg": cfg})
+        if (h + 1) * w + h * (w + 1) <= 12:
+            for cfg in (False, True):
+                out.append({"kind": "cycle", "shape": [h, w], "ugp": "default", "cfg": cfg, "entry": "single_loop"})
     return out
 
 
